@@ -16,11 +16,11 @@ def scratch_root():
     return d
 
 
-def _rewrite(path, pattern, repl, what):
+def _rewrite(path, pattern, repl, what, at_least_one=False):
     with open(path) as fh:
         src = fh.read()
     new, n = re.subn(pattern, repl, src, flags=re.M)
-    if n != 1:
+    if (n < 1) if at_least_one else (n != 1):
         raise OverlayError("scaling rewrite '%s' did not match exactly once in %s (matched %d times)" % (what, path, n))
     with open(path, "w") as fh:
         fh.write(new)
@@ -67,6 +67,13 @@ def make_variant(root, variant):
                  "MAX_ANNOUNCE_MESSAGES 8 -> 2")
         _rewrite(fm, r"^const MAX_FOREIGN_MASTERS: usize = 8;", "const MAX_FOREIGN_MASTERS: usize = 2;",
                  "MAX_FOREIGN_MASTERS 8 -> 2")
+    if variant.endswith("_rv"):
+        # the dependency's ArrayVec::retain (guard-based, data-dependent hole index) replaced at statime's call
+        # sites by an element-wise equivalent for <= 2 elements (harness/fm: retain2); statime's closure and
+        # receiver stay as they are. Kani's #[stub] rejects the generic signature, hence the textual form.
+        fm = os.path.join(repo, "statime/src/bmc/foreign_master.rs")
+        _rewrite(fm, r"(\bself(?:\.\w+)+)\.retain\(", r"verif_fm::retain2(&mut \1, ",
+                 "ArrayVec::retain -> verif_fm::retain2 at statime's call sites", at_least_one=True)
     return repo, vh
 
 
